@@ -87,14 +87,7 @@ func VerifC13BaseUnchanged() {
 		return
 	}
 	prepare(b, vnd.Pick(3))
-	var ref string
-	kref := vnd.Param("C13.KRef", 0, 1)
-	if kref > 0 && vnd.Pick(4) == 0 {
-		ri := vnd.Pick(len(refCtx))
-		ref = refCtx[ri].pre + vnd.Str(vnd.Len(kref)) + refCtx[ri].suf
-	} else {
-		ref = aliasRefs[vnd.Pick(len(aliasRefs))]
-	}
+	ref := aliasRefs[vnd.Pick(len(aliasRefs))]
 	before := stateString(b)
 	r, rerr := b.Parse(ref)
 	verifCheckUnchanged(b, before, "resolving a reference changed the base")
@@ -117,6 +110,34 @@ func VerifC13BaseUnchanged() {
 	}
 }
 
+// VerifC13ResolveLeavesBase: the resolution itself (any reference shape with a window of arbitrary
+// bytes, any base shape, also a symbolic base) leaves every observable of the base unchanged.
+func VerifC13ResolveLeavesBase() {
+	var baseStr, ref string
+	if vnd.Pick(2) == 0 {
+		baseStr = bases[vnd.Pick(len(bases))]
+		ri := vnd.Pick(len(refCtx))
+		ref = refCtx[ri].pre + vnd.Str(vnd.Len(vnd.Param("C13.KRef", 2, 3))) + refCtx[ri].suf
+	} else {
+		ci := vnd.Pick(len(ctxAbs))
+		baseStr = ctxAbs[ci].pre + vnd.Str(vnd.Len(vnd.Param("C13.KBase", 1, 2))) + ctxAbs[ci].suf
+		ref = refs[vnd.Pick(len(refs))]
+	}
+	b, err := Parse(baseStr)
+	if err != nil {
+		return
+	}
+	prepare(b, vnd.Pick(3))
+	before := stateString(b)
+	r, rerr := b.Parse(ref)
+	verifCheckUnchanged(b, before, "resolving a reference changed the base")
+	if rerr == nil {
+		// reading the result (incl. its lazily created search parameters) does not touch the base either
+		_ = stateString(r)
+		verifCheckUnchanged(b, before, "reading the result of a resolution changed the base")
+	}
+}
+
 var cloneStarts = []string{"http://h/p?a=1&b=2#f", "a:b  ?q", "http://h/?x", "a://h/p?%20x=+y&&z", "http://u:p@h:8/p?q#f", "file:///C:/d", "a:b ?q#f", "a:/.//p"}
 
 // VerifC13Clone: Clone returns a fully independent copy that behaves like the original would:
@@ -125,6 +146,8 @@ var cloneStarts = []string{"http://h/p?a=1&b=2#f", "a:b  ?q", "http://h/?x", "a:
 // independently built copy.
 func VerifC13Clone() {
 	start := cloneStarts[vnd.Pick(len(cloneStarts))]
+	// one symbolic byte in the query (or opaque path) of the start URL
+	start += vnd.StrOver(vnd.Len(1), "ab&=%+ 2#")
 	u, err := Parse(start)
 	if err != nil {
 		return
@@ -165,4 +188,5 @@ func VerifC13Clone() {
 func init() {
 	verifHarnesses["VerifC13BaseUnchanged"] = VerifC13BaseUnchanged
 	verifHarnesses["VerifC13Clone"] = VerifC13Clone
+	verifHarnesses["VerifC13ResolveLeavesBase"] = VerifC13ResolveLeavesBase
 }
